@@ -248,7 +248,7 @@ def serialize_case(name, doc: Node, unrendered):
 
 
 # ---------------------------------------------------------------- context expressions
-def context_case(rng, name):
+def context_case(rng, name, closed_sibling=False):
     info = info_for(name)
     sc = SCHEMAS[name]
     parser = DOMParser.from_schema(sc)
@@ -267,6 +267,10 @@ def context_case(rng, name):
             break
         stack.append(t)
         cur = t
+    if closed_sibling and ctx.open >= 1:
+        # what add_element does after a child element: sync back to an ancestor; the finished child(ren) stay on
+        # ctx.nodes above ctx.open until the next enter flushes them - they are NOT open ancestors
+        guarded(lambda: ctx.sync(ctx.nodes[ctx.open - rng.randint(1, min(2, ctx.open))]))
     stack = [n.type for n in ctx.nodes[: ctx.open + 1]]
     names = list(sc.nodes) + ["block", "inline", "nosuch"]
 
@@ -363,6 +367,14 @@ def generate(rng: random.Random, tier: str):
                 continue
             c = roundtrip_case(name, doc)
             c.kind = f"roundtrip-falsy-attrs/{name}"
+            yield c
+    # context expressions evaluated right after a child element was closed (appended stream): the closed child still sits
+    # on the parser's node stack above `open`, and is not an ancestor (seeded change C19-8 started the walk at the stack's
+    # top instead of `open`)
+    for name in SCHEMAS:
+        for _ in range(60 if quick else 1200):
+            c = context_case(rng, name, closed_sibling=True)
+            c.kind = "context-after-closed-child/" + c.kind.split("/", 1)[1]
             yield c
 
 
